@@ -119,6 +119,7 @@ def run(ctx, rep):
     rep.check(len(qs) == 1 and all(s.dominates(qs[0], t) for t in tls), 'R-C15-4', 'times sorted before limits are derived', s.file, '', function='state_scrub', construct='sort first')
 
     quota_rule(P, rep, s, f, 5 if ctx.tier == 'quick' else 7)
+    info_word_rule(P, rep, 'R-C15-6')
 
 
 def quota_rule(P, rep, s, be, nmax=5, rid='R-C15-5'):
@@ -192,3 +193,25 @@ def quota_rule(P, rep, s, be, nmax=5, rid='R-C15-5'):
     if bad:
         rep.fail(rid, 'state_scrub quota derivation', s.file, bad, function='state_scrub', construct='quota derivation')
     rep.extra['quota_configurations'] = n_runs
+
+
+def info_word_rule(P, rep, rid):
+    """the stripe info word: accessors invert info_make for every flag combination, a bad mark changes nothing else, and a
+    used stripe never encodes as 0 (0 means `no info`)"""
+    rep.rule(rid, 'info word: info_get_* invert info_make for all flag combinations and times; info_set_bad only adds the bad flag; info of a checked stripe is never 0', 32)
+    fn = {n: (P.variants(n) or [None])[0] for n in ('info_make', 'info_get_time', 'info_get_bad', 'info_get_rehash', 'info_get_justsynced', 'info_set_bad')}
+    if not all(fn.values()):
+        raise AnalysisBroken('info accessors not found: %s' % [k for k, v in fn.items() if not v])
+    run = lambda name, args: region.Region(P).run(fn[name], 0, args)
+    for t in (8, 16, 1 << 31, (1 << 32) - 8):      # snapraid_info is a 32-bit word: times beyond 2^32 are out of its domain
+        for b in (0, 1):
+            for r in (0, 1):
+                for j in (0, 1):
+                    w = run('info_make', [t, b, r, j])
+                    got = (run('info_get_time', [w]), run('info_get_bad', [w]), run('info_get_rehash', [w]), run('info_get_justsynced', [w]))
+                    ok = got == (t, b, r, j) and w != 0
+                    wb = run('info_set_bad', [w])
+                    gotb = (run('info_get_time', [wb]), run('info_get_bad', [wb]), run('info_get_rehash', [wb]), run('info_get_justsynced', [wb]))
+                    okb = gotb == (t, 1, r, j)
+                    rep.check(ok and okb, rid, 'time %d bad %d rehash %d justsynced %d' % (t, b, r, j), fn['info_make'].file,
+                              'decoded %s; after info_set_bad %s' % (got, gotb), function='info_make', construct='info word round trip')
